@@ -431,6 +431,41 @@ def is_cell_label(s):
     return isinstance(s, str) and re.match(r'\$?[A-Za-z]+\$?[0-9]+\Z', s) is not None
 
 
+def first_error(items):
+    for x in items:
+        if is_err(x):
+            return x
+    return None
+
+
+def numeric_items(items, try_parse, text_is_zero):
+    out = []
+    for el in items:
+        if try_parse and isinstance(el, str):
+            try:
+                el = int(el)
+            except ValueError:
+                try:
+                    el = float(el)
+                except ValueError:
+                    pass
+        if isinstance(el, (int, float, complex)):
+            out.append(el)
+        elif text_is_zero and isinstance(el, str):
+            out.append(0)
+    return out
+
+
+def stat(name, data):
+    import statistics
+    return getattr(statistics, name)(data)
+
+
+def wildcard_match(item, pattern):
+    import fnmatch
+    return fnmatch.fnmatch(item, pattern)
+
+
 def acot(x):
     return math.pi / 2 if x == 0 else math.atan(1 / x)
 
@@ -527,7 +562,7 @@ def ceil(x):
 NATIVE_NAMES = ['Outcome', 'Dom', 'NONE_T', 'BOOL', 'INT', 'FLOAT', 'STR', 'ERR', 'DATE', 'NUMBER', 'NUMBERB', 'SCALAR',
                 'HOSTOBJ', 'ANY', 'VALUE_T', 'SEQ', 'ARGS', 'CONST', 'CHOICE', 'TUPLE', 'LISTN', 'OBJECT', 'HOSTFN', 'DDICT', 'choice', 'ddict', 'listener', 'has_attr', 'get_attr', 'is_closure', 'SYMMAP', 'SYMMAP_LISTS', 'OMITTED', 'host_calls', 'emits', 'setter_values', 'registry_has', 'registry_fn', 'map_has', 'map_get', 'PROD', 'str_of_symbol', 'calls', 'call_result', 'result_of', 'contract',
                 'lemma', 'is_none', 'is_bool', 'is_int', 'is_float', 'is_num', 'is_numb', 'is_str', 'is_err', 'is_date',
-                'is_list', 'is_obj', 'same', 'truthy', 'implies', 'raises', 'raise_err', 'forall', 'exists', 'flat', 'collapse_spaces', 'replace_kth', 'acot', 'acoth', 'cot', 'col_value', 'col_label', 'is_cell_label', 'is_digits', 'label_parts', 'parsed_label', 'parity_true', 'xl_type', 'date_us', 'date_from_us', 'dateutil_parse',
+                'is_list', 'is_obj', 'same', 'truthy', 'implies', 'raises', 'raise_err', 'forall', 'exists', 'flat', 'collapse_spaces', 'replace_kth', 'first_error', 'numeric_items', 'stat', 'wildcard_match', 'acot', 'acoth', 'cot', 'col_value', 'col_label', 'is_cell_label', 'is_digits', 'label_parts', 'parsed_label', 'parity_true', 'xl_type', 'date_us', 'date_from_us', 'dateutil_parse',
                 'int_of_text', 'text_is_int', 'float_of_text', 'text_is_float', 'errmsg', 'is_canonical', 'real',
                 'floor', 'ceil']
 ERR_NAMES = ['ERROR', 'DIV_ZERO', 'NAME', 'NOT_AVAILABLE', 'NULL', 'NUM', 'REF', 'VALUE', 'DATA']
